@@ -5,13 +5,13 @@
    every emitted query equals what the rule yields alone, a failing rule contributes no
    query and exactly one error record, strict mode stops at the first failing rule.     *)
 EXTENDS Conversion, TLC
-CONSTANT MaxRules
+CONSTANTS MaxRules, Restore      \* Restore = FALSE: the not-equals context is left without try/finally (negative control)
 VARIABLES kinds, collect, st
 vars == <<kinds, collect, st>>
 Init == /\ kinds \in UNION {[1..n -> Kinds] : n \in 1..MaxRules}
         /\ collect \in BOOLEAN
         /\ st = VInit
-Next == st.status = "run" /\ st' = VStep(kinds, collect, st) /\ UNCHANGED <<kinds, collect>>
+Next == st.status = "run" /\ st' = VStepR(kinds, collect, st, Restore) /\ UNCHANGED <<kinds, collect>>
 Spec == Init /\ [][Next]_vars
 
 NoLeak == (st.status = "run" /\ st.stage = "apply") => st.templates = "normal" /\ st.pending = <<>>
